@@ -9,7 +9,7 @@
 #include <set>
 #include "common.h"
 
-namespace sim { void set_stats_dump(void (*fn)()); }
+namespace sim { void set_stats_dump(void (*fn)()); void set_lane_positions(const size_t* pos); }
 
 namespace hz {
 Outcome RunC01(RunCtx&);
@@ -57,14 +57,6 @@ static const Source* g_currentSource = nullptr;
 
 static void DumpStats()
 {
-	if (g_currentSource)
-	{
-		// how much of every lane the dying run had consumed (lets the minimiser cut the rest at once)
-		fprintf(stderr, "LANEPOS");
-		for (int l = 0; l < sim::L_COUNT; ++l) fprintf(stderr, " %s=%zu", sim::LaneNames[l], g_currentSource->pos[l]);
-		fprintf(stderr, "\n");
-		fflush(stderr);
-	}
 	if (g_statsDumped) return;
 	g_statsDumped = true;
 	std::string j = "{";
@@ -129,9 +121,11 @@ static int CmdRun(int argc, char** argv)
 		RunCtx ctx;
 		ctx.src.Seed(RunSeed(prop, seed, idx));
 		g_currentSource = &ctx.src;
+		sim::set_lane_positions(ctx.src.pos);   // a dying run reports how much of every lane it had consumed
 		sim::ev_reset(false);
 		Outcome o = fn(ctx);
 		g_currentSource = nullptr;
+		sim::set_lane_positions(nullptr);
 		sim::steps_end();
 		ResetKnobs();
 		++g_evaluations;
@@ -186,7 +180,9 @@ static int Execute(const char* prop, RunCtx& ctx)
 	if (!g_coldRun) WarmUp();
 	sim::ev_reset(ctx.describe);
 	g_currentSource = &ctx.src;
+	sim::set_lane_positions(ctx.src.pos);
 	Outcome o = fn(ctx);
+	sim::set_lane_positions(nullptr);
 	g_currentSource = nullptr;
 	sim::steps_end();
 	printf("RESULT %s cls=%s hash=%016" PRIx64 " nontrivial=%d\n", o.violation ? "violation" : "ok", o.violation ? o.cls.c_str() : "-", sim::ev_hash(), o.nontrivial ? 1 : 0);
